@@ -180,6 +180,14 @@ func genC14(r *Rng) *Plan {
 	p := &Plan{Cfg: cfg, Users: stdUsers, Gen: gen}
 	// probes: every user tries every simple host; unauthenticated requests to probe paths
 	users := []string{"alice@example.com", "bob@example.com", "carol@other.org", "dave@example.com", "mallory@evil.com"}
+	if r.Chance(1, 3) {
+		// the same document is loaded again (a supervisor restarting the process, a reload loop): the verdict on a
+		// document does not depend on how often, or after what, it is loaded
+		for k := r.Range(1, 2); k > 0; k-- {
+			p.Steps = append(p.Steps, Step{Op: "restart", Sub: "proxy"})
+		}
+		p.Gen += "+reload"
+	}
 	for i := 1; i <= nSvc; i++ {
 		for _, h := range []string{fmt.Sprintf("svc%d.%s", i, RootDomain), fmt.Sprintf("svc%d-extra.%s", i, RootDomain)} {
 			for _, path := range []string{"/health", "/public/x", "/private"} {
